@@ -300,7 +300,7 @@ class VttContext:
         for cue in reversed(self._paragraphs):
           if cue.get_end() is not None:
             break
-          cue.set_end(cue.get_begin().to_seconds() + 10.0)
+          cue.set_end(Fraction(cue.get_begin().to_milliseconds() + 10000, 1000))
 
   def style_block(self):
     """Generated CSS INLINE STYLE Block"""
